@@ -204,6 +204,33 @@ using G9 = server< nogap, max_mtu_size< 65 >, requires_encryption,
         characteristic< characteristic_uuid16< 0x9007 >, BIND( b_a22 ), notify >
     > >;
 
+// A1 / A2: characteristics WITHOUT characteristic_uuid: the UUID is generated from the service's
+// 128 bit UUID and the index of the characteristic (fixup_auto_uuid in char_declaration_access;
+// a 16 bit service UUID is refused by a static_assert in characteristic_or_service_uuid).
+// A1: default MTU, every characteristic of the service has an auto-generated UUID
+using A1 = server< nogap,
+    service< su_a,
+        characteristic< BIND( b_u8 ) >,
+        characteristic< BIND( b_u32 ), notify >,
+        characteristic< BIND( b_c32 ) >,
+        characteristic< BIND( b_a3 ) >
+    > >;
+
+// A2: MTU 40 (Read By Type / Read Multiple at every negotiated MTU 23..40), a 16 bit service with explicit
+// UUIDs in front, then a 128 bit service mixing auto-generated and explicit (16 and 128 bit) UUIDs
+using A2 = server< nogap, max_mtu_size< 40 >,
+    service< service_uuid16< 0x18AA >,
+        characteristic< characteristic_uuid16< 0xA201 >, BIND( b_u16 ) >,
+        characteristic< cu128< 7 >, BIND( b_a20 ) >
+    >,
+    service< su_b,
+        characteristic< BIND( b_u8 ) >,
+        characteristic< cu128< 9 >, BIND( b_a3 ) >,
+        characteristic< BIND( b_a22 ), indicate >,
+        characteristic< characteristic_uuid16< 0xA206 >, BIND( b_u32 ) >,
+        characteristic< BIND( b_n0 ), no_read_access >
+    > >;
+
 // Q1 / Q2: servers with a write queue (Prepare / Execute Write are modelled by attwq; here they are
 // only exercised on the real code for framing and memory safety)
 using Q1 = server< nogap, max_mtu_size< 65 >, shared_write_queue< 64 >,
